@@ -266,6 +266,13 @@ def it_next(I, callee, args, st, n, fidx):
     cid = cursor_of(a)
     if cid is not None and cid in st.cursors:
         return c_advance(I, callee, [a], st, n, fidx)
+    if isinstance(a, Enum) and a.path == "[iter_items]":
+        # iterator over a known, finite list of values (array literal): exact, no fork
+        if a.args:
+            if isinstance(args[0], LRef):
+                I.store(args[0], Enum("[iter_items]", a.args[1:]), st, n)
+            return val(some(a.args[0]), st)
+        return val(NONE, st)
     if isinstance(a, Term) and a.op in ("iter_nonempty", "iter_rest"):
         st.fields["_item"] = st.fields.get("_item", 0) + 1
         item = Term("item_of", (a.args[0], Const("int", st.fields["_item"])), None)
@@ -303,6 +310,26 @@ def v_push(I, callee, args, st, n, fidx):
         return val(UNIT, st)
     if isinstance(a, LRef):
         return val(UNIT, st)
+    return val(UNIT, st)
+
+
+@prim("std::vec::Vec::extend", "std::iter::Extend::extend")
+def v_extend(I, callee, args, st, n, fidx):
+    a = args[0]
+    if isinstance(a, LRef):
+        a = I.deref(a, st)
+    if is_obj(a, "mode_stack"):
+        items = args[1]
+        if isinstance(items, Enum) and items.path in ("[array]", "[iter_items]"):
+            for m in items.args:
+                st.stack.append(m)
+                I.emit(st, "push", n, mode=m, depth=st.base + len(st.stack))
+            return val(UNIT, st)
+        st.stack_ok = False
+        I.note_unanalysed("mode_stack.extend with an iterable LEA cannot enumerate", n)
+        return val(UNIT, st)
+    if is_obj(a, "errors"):
+        I.note_unanalysed("errors.extend", n)
     return val(UNIT, st)
 
 
@@ -1259,6 +1286,10 @@ def m_resolve_ops(I, callee, args, st, n, fidx):
 @prim("std::iter::IntoIterator::into_iter")
 def it_into_iter(I, callee, args, st, n, fidx):
     a = args[0]
+    if isinstance(a, Enum) and a.path == "[array]":
+        return val(Enum("[iter_items]", list(a.args)), st)
+    if isinstance(a, Enum) and a.path == "[iter_items]":
+        return val(a, st)
     if isinstance(a, Term) and a.op == "resolve_ops":
         return val(Term("iter_nonempty", (a,), "IntoIter<u8>"), st)
     if isinstance(a, Enum) and a.path.endswith("Range") and "start" in a.fields and "end" in a.fields:
